@@ -201,6 +201,7 @@ def random_abstract(rnd):
             out.append({"op": "tick", "n": rnd.choice([15, 30, 16, 3600])})
             out.append({"op": "insert", "n": 1})
         return out
+    ticky = rnd.random() < 0.5      # upsert runs: half of the histories have idle time inside the run (age flushes), half are pure bursts (count flushes)
     for _ in range(rnd.randint(5, 18)):
         r = rnd.random()
         if mode == "trickle":
@@ -230,7 +231,7 @@ def random_abstract(rnd):
                 out.append({"op": "insert", "n": rnd.choice([3, 30])})
                 out.append({"op": "learn", "n": 0})
             for _ in range(rnd.choice([1, 5, 25, 40])):
-                if rnd.random() < 0.3:
+                if ticky and rnd.random() < 0.3:
                     out.append({"op": "tick", "n": rnd.choice([1, 9, 15, 30, 3600])})     # a bulk write issued long after the last flush
                 out.append({"op": "upsert", "n": rnd.choice([1, 2, 3])})
             if r < 0.3:
